@@ -1,6 +1,17 @@
 import TsV.Model.Lang.Common
 /-!
-# Model of `core/src/language/scala.rs`  (stub: not modelled yet)
+# Model of `core/src/language/scala.rs`
+
+`Scala` overrides `Language::generate_types`: no topological sort, no imports, no constants.  One
+file is
+
+    header?  `package <parent>`?  package-object{ unsigned aliases?, type aliases }?
+    package{ structs (input order), enums (input order) }?
+
+The printer has no mutable state (`type_mappings` is only read with `get`), so nothing is threaded
+between the files of a run.  Declarations are first built as fact records (`ScParam`, `ScClass`,
+`ScCase`, `ScEnum`, `ScAlias`: what a declaration binds and what it refers to) and then rendered;
+the correspondence compares the rendered bytes.
 -/
 namespace TsV.Lang.Scala
 open TsV TsV.Lang
@@ -11,12 +22,330 @@ structure Cfg where
   package : Str := []
   moduleName : Str := []
 
+/-- `Scala::format_generic_parameters`: `[A, B]` -/
+def bracket (ps : List Str) : Str := s%"[" ++ Str.intercalate s%", " ps ++ s%"]"
+
+/-- `(!generic_types.is_empty()).then(|| format!("[{}]", generic_types.join(", "))).unwrap_or_default()` -/
+def genericSq (gs : List Str) : Str := if gs.isEmpty then [] else bracket gs
+
+/-- `str::rsplit_once('.')` -/
+def rsplitOnceDot (s : Str) : Option (Str × Str) :=
+  match s.reverse.span (· != '.') with
+  | (_, []) => none
+  | (lastRev, _ :: parentRev) => some (parentRev.reverse, lastRev.reverse)
+
+mutual
+  /-- `Language::format_type` (default) with `Scala::format_special_type`; special types are NOT
+  looked up in the type mappings -/
+  def formatType (cfg : Cfg) (gens : List Str) : RustType → Outcome Str
+    | .simple id => .ok ((mapGet cfg.typeMappings id).getD id)
+    | .generic id ps =>
+      match mapGet cfg.typeMappings id with
+      | some m => .ok m
+      | none =>
+        match formatTypes cfg gens ps with
+        | .ok strs => .ok ((mapGet cfg.typeMappings id).getD id ++ (if strs.isEmpty then [] else bracket strs))
+        | .err e => .err e
+        | .panic s => .panic s
+    | .vec r => (formatType cfg gens r).bind fun s => .ok (s%"Vector[" ++ s ++ s%"]")
+    | .array r _ => (formatType cfg gens r).bind fun s => .ok (s%"Vector[" ++ s ++ s%"]")
+    | .slice r => (formatType cfg gens r).bind fun s => .ok (s%"Vector[" ++ s ++ s%"]")
+    | .option r => (formatType cfg gens r).bind fun s => .ok (s%"Option[" ++ s ++ s%"]")
+    | .hashMap k v =>
+      (formatType cfg gens k).bind fun ks =>
+      (formatType cfg gens v).bind fun vs => .ok (s%"Map[" ++ ks ++ s%", " ++ vs ++ s%"]")
+    | .prim p =>
+      match p with
+      | .unit => .ok s%"Unit"
+      | .string | .char => .ok s%"String"
+      | .i8 => .ok s%"Byte"
+      | .i16 => .ok s%"Short"
+      | .isize | .i32 => .ok s%"Int"
+      | .i54 | .i64 => .ok s%"Long"
+      | .u8 => .ok s%"UByte"
+      | .u16 => .ok s%"UShort"
+      | .usize | .u32 => .ok s%"UInt"
+      | .u53 | .u64 => .ok s%"ULong"
+      | .bool => .ok s%"Boolean"
+      | .f32 => .ok s%"Float"
+      | .f64 => .ok s%"Double"
+      | .dateTime => .err (.formatError s%"UnsupportedSpecialType")
+  def formatTypes (cfg : Cfg) (gens : List Str) : List RustType → Outcome (List Str)
+    | [] => .ok []
+    | t :: ts =>
+      (formatType cfg gens t).bind fun s =>
+      (formatTypes cfg gens ts).bind fun ss => .ok (s :: ss)
+end
+
+/-- `write_comments`: one `// ` line per comment -/
+def comments (indent : Nat) (cs : List Str) : Str :=
+  cs.flatMap fun c => tabs indent ++ s%"// " ++ c ++ nl
+
+/-! ## the unsigned-alias scan -/
+
+/-- the final `matches!` of `unsigned_integer_used` -/
+def isUnsigned : RustType → Bool
+  | .prim .u8 | .prim .u16 | .prim .u32 | .prim .u53 | .prim .u64 | .prim .usize => true
+  | _ => false
+
+/-- the `flat_map` of `unsigned_integer_used`: the scan looks exactly one level into `Generic`,
+`Option`, `Vec` and `HashMap`, and not at all into arrays and slices (which fall into the
+`RustType::Special(_) => vec![ty.clone()]` arm and are then not unsigned leaves themselves) -/
+def scanCandidates : RustType → List RustType
+  | .generic _ ps => ps
+  | .option t => [t]
+  | .vec t => [t]
+  | .hashMap k v => [k, v]
+  | .simple _ => []
+  | t@(.array _ _) => [t]
+  | t@(.slice _) => [t]
+  | t@(.prim _) => [t]
+
+/-- the types the scan starts from: alias targets, struct field types, tuple-variant types and
+struct-variant field types (type overrides and type mappings are not consulted; consts are not
+looked at) -/
+def scannedTypes (d : ParsedData) : List RustType :=
+  d.aliases.map (·.ty) ++
+  d.structs.flatMap (fun s => s.fields.map (·.ty)) ++
+  d.enums.flatMap fun e => e.variants.flatMap fun v =>
+    match v with
+    | .unit _ _ => []
+    | .tuple _ _ ty => [ty]
+    | .anonymousStruct _ _ fs => fs.map (·.ty)
+
+/-- `unsigned_integer_used` -/
+def unsignedIntegerUsed (d : ParsedData) : Bool :=
+  ((scannedTypes d).flatMap scanCandidates).any isUnsigned
+
+/-- `write_unsigned_aliases` (`ULong = Int` is what the source says) -/
+def unsignedAliases : Str :=
+  s%"type UByte = Byte\ntype UShort = Short\ntype UInt = Int\ntype ULong = Int\n\n"
+
+/-! ## case-class parameters and classes -/
+
+/-- one case-class parameter -/
+structure ScParam where
+  comments : List Str
+  name : Str          -- as printed (`-` replaced by `_`)
+  ty : Str            -- type string (override or formatted)
+  default : Str       -- ``, ` = None` or ` = _`
+deriving Repr, Inhabited, DecidableEq
+
+def renderParam (p : ScParam) : Str :=
+  comments 1 p.comments ++ s%"\t" ++ p.name ++ s%": " ++ p.ty ++ p.default
+
+/-- `write_element` as facts -/
+def paramFacts (cfg : Cfg) (gens : List Str) (f : RustField) : Outcome ScParam :=
+  (match typeOverride f .scala with
+   | some t => Outcome.ok t
+   | none => formatType cfg gens f.ty).bind fun ty =>
+  .ok { comments := f.comments,
+        name := Str.replaceChar f.id.renamed '-' s%"_",
+        ty,
+        default := if f.hasDefault && !f.ty.isOptional then s%" = _"
+                   else if f.ty.isOptional then s%" = None" else [] }
+
+/-- a `case class` (or, without parameters, a plain `class … extends Serializable`, which drops the
+generic parameters) -/
+structure ScClass where
+  comments : List Str
+  name : Str
+  generics : List Str
+  params : List ScParam
+deriving Repr, Inhabited, DecidableEq
+
+def renderClass (c : ScClass) : Str :=
+  comments 0 c.comments ++
+  if c.params.isEmpty then s%"class " ++ c.name ++ s%" extends Serializable\n\n"
+  else
+    s%"case class " ++ c.name ++ genericSq c.generics ++ s%" (\n" ++
+      Str.intercalate s%",\n" (c.params.map renderParam) ++ s%"\n)\n\n"
+
+/-- `write_struct` as facts -/
+def classFacts (cfg : Cfg) (rs : RustStruct) : Outcome ScClass :=
+  (Outcome.mapM' (paramFacts cfg rs.genericTypes) rs.fields).bind fun params =>
+    .ok { comments := rs.comments, name := rs.id.renamed, generics := rs.genericTypes, params }
+
+def writeStruct (cfg : Cfg) (rs : RustStruct) : Outcome Str :=
+  (classFacts cfg rs).bind fun c => .ok (renderClass c)
+
+/-! ## type aliases -/
+
+structure ScAlias where
+  comments : List Str
+  name : Str          -- `id.original` (a serde rename of the alias is ignored)
+  generics : List Str
+  ty : Str
+deriving Repr, Inhabited, DecidableEq
+
+def renderAlias (a : ScAlias) : Str :=
+  comments 0 a.comments ++ s%"type " ++ a.name ++ genericSq a.generics ++ s%" = " ++ a.ty ++ s%"\n\n"
+
+/-- `write_type_alias` as facts -/
+def aliasFacts (cfg : Cfg) (a : RustTypeAlias) : Outcome ScAlias :=
+  (formatType cfg a.genericTypes a.ty).bind fun ty =>
+    .ok { comments := a.comments, name := a.id.original, generics := a.genericTypes, ty }
+
+def writeAlias (cfg : Cfg) (a : RustTypeAlias) : Outcome Str :=
+  (aliasFacts cfg a).bind fun f => .ok (renderAlias f)
+
+/-! ## enums -/
+
+/-- one member of the companion object -/
+structure ScCase where
+  comments : List Str
+  name : Str                                    -- object / class name (from `id.original`)
+  /-- `none`: `case object`; `some (generics, parameter name, parameter type)`: `case class` -/
+  content : Option (List Str × Str × Str)
+  parent : Str                                  -- the trait named after `extends`
+  parentGenerics : List Str
+  serialName : Str                              -- `id.renamed`, printed with `{:?}`
+deriving Repr, Inhabited, DecidableEq
+
+def renderCase (c : ScCase) : Str :=
+  comments 1 c.comments ++
+  (match c.content with
+   | none => s%"\tcase object " ++ c.name
+   | some (gs, p, ty) =>
+     s%"\tcase class " ++ c.name ++ genericSq gs ++ s%"(" ++ p ++ s%": " ++ ty ++ s%")") ++
+  s%" extends " ++ c.parent ++ genericSq c.parentGenerics ++ s%" {\n" ++
+  s%"\t\tval serialName: String = " ++ debugStr c.serialName ++ s%"\n\t}\n"
+
+/-- the `variant_name` block: a leading ASCII digit gets an underscore in front -/
+def variantName (original : Str) : Str :=
+  match original with
+  | c :: _ => if Str.isAsciiDigit c then '_' :: original else original
+  | [] => original
+
+/-- the generic parameters of the enclosing enum a struct variant's fields mention
+(`flat_map … filter(contains_type) … unique`) -/
+def usedGenerics (e : RustEnum) (fields : List RustField) : List Str :=
+  (fields.flatMap fun f => e.genericTypes.filter fun g => f.ty.containsType g).eraseDups
+
+/-- one iteration of the loops of `write_enum_variants` -/
+def caseFacts (cfg : Cfg) (e : RustEnum) (v : RustEnumVariant) : Outcome ScCase :=
+  match e.keys with
+  | none =>
+    -- `RustEnum::Unit`: `extends <renamed>` without generic parameters, name not digit-escaped
+    .ok { comments := v.comments, name := v.id.original, content := none,
+          parent := e.id.renamed, parentGenerics := [], serialName := v.id.renamed }
+  | some (_, contentKey) =>
+    -- `RustEnum::Algebraic`: `extends <original><generics>`
+    let mk (content : Option (List Str × Str × Str)) : ScCase :=
+      { comments := v.comments, name := variantName v.id.original, content,
+        parent := e.id.original, parentGenerics := e.genericTypes, serialName := v.id.renamed }
+    match v with
+    | .unit _ _ => .ok (mk none)
+    | .tuple _ _ ty =>
+      (formatType cfg e.genericTypes ty).bind fun t => .ok (mk (some (e.genericTypes, contentKey, t)))
+    | .anonymousStruct id _ fs =>
+      .ok (mk (some (e.genericTypes, contentKey,
+        e.id.original ++ id.original ++ s%"Inner" ++ genericSq (usedGenerics e fs))))
+
+/-- a sealed trait with its companion object, preceded by the classes generated for its struct
+variants -/
+structure ScEnum where
+  inner : List ScClass        -- `<renamed><Variant>Inner` classes
+  comments : List Str
+  name : Str                  -- `id.renamed`: trait and companion object
+  generics : List Str
+  cases : List ScCase
+deriving Repr, Inhabited, DecidableEq
+
+def renderEnum (e : ScEnum) : Str :=
+  (e.inner.flatMap renderClass) ++
+  comments 0 e.comments ++
+  s%"sealed trait " ++ e.name ++ genericSq e.generics ++ s%" {\n" ++
+  s%"\tdef serialName: String\n" ++
+  s%"}\n" ++
+  s%"object " ++ e.name ++ s%" {\n" ++
+  (e.cases.flatMap renderCase) ++
+  s%"}\n\n"
+
+/-- `write_types_for_anonymous_structs` with Scala's `make_struct_name`
+(`<enum renamed><variant original>Inner`) -/
+def innerClasses (cfg : Cfg) (e : RustEnum) : Outcome (List ScClass) :=
+  Outcome.mapM' (fun (p : Id × List RustField) =>
+    classFacts cfg (anonymousStruct e (e.id.renamed ++ p.1.original ++ s%"Inner") p.1.original p.2))
+    (structVariants e)
+
+/-- `write_enum` as facts -/
+def enumFacts (cfg : Cfg) (e : RustEnum) : Outcome ScEnum :=
+  (innerClasses cfg e).bind fun inner =>
+  (Outcome.mapM' (caseFacts cfg e) e.variants).bind fun cases =>
+    .ok { inner, comments := e.comments, name := e.id.renamed, generics := e.genericTypes, cases }
+
+def writeEnum (cfg : Cfg) (e : RustEnum) : Outcome Str :=
+  (enumFacts cfg e).bind fun f => .ok (renderEnum f)
+
+/-! ## the file -/
+
+/-- everything one output file declares -/
+structure ScFile where
+  header : Option Str                 -- version
+  /-- `package.rsplit_once('.')`: `(parent, last)` -/
+  split : Option (Str × Str)
+  /-- the package object, when written: whether it starts with the unsigned aliases, and the aliases -/
+  packageObject : Option (Bool × List ScAlias)
+  /-- the package block, when written -/
+  packageBody : Option (List ScClass × List ScEnum)
+deriving Repr, Inhabited, DecidableEq
+
+def renderFile (f : ScFile) : Str :=
+  (match f.header with
+   | some v => s%"/**\n * Generated by typeshare " ++ v ++ s%"\n */\n"
+   | none => []) ++
+  (match f.split with
+   | some (parent, _) => s%"package " ++ parent ++ s%"\n\n"
+   | none => []) ++
+  (match f.packageObject with
+   | some (unsigned, aliases) =>
+     (match f.split with
+      | some (_, last) => s%"package object " ++ last ++ s%" {\n\n"
+      | none => []) ++
+     (if unsigned then unsignedAliases else []) ++
+     (aliases.flatMap renderAlias) ++ s%"}\n"
+   | none => []) ++
+  (match f.packageBody with
+   | some (classes, enums) =>
+     (match f.split with
+      | some (_, last) => s%"package " ++ last ++ s%" {\n\n"
+      | none => []) ++
+     (classes.flatMap renderClass) ++ (enums.flatMap renderEnum) ++ s%"}\n"
+   | none => [])
+
+/-- `Scala::generate_types` as facts.  `data.consts` is never looked at (so the `todo!()` of
+`write_const` is unreachable), nothing is sorted, `write_imports` (`unimplemented!()`) is never
+called. -/
+def fileFacts (cfg : Cfg) (d : ParsedData) : Outcome ScFile :=
+  -- `begin_file`
+  if cfg.package.isEmpty then .panic s%"scala.rs:131" else
+  let unsigned := unsignedIntegerUsed d
+  (if unsigned || !d.aliases.isEmpty then
+     (Outcome.mapM' (aliasFacts cfg) d.aliases).bind fun as => .ok (some (unsigned, as))
+   else .ok none).bind fun packageObject =>
+  (if !d.structs.isEmpty || !d.enums.isEmpty then
+     (Outcome.mapM' (classFacts cfg) d.structs).bind fun cs =>
+     (Outcome.mapM' (enumFacts cfg) d.enums).bind fun es => .ok (some (cs, es))
+   else .ok none).bind fun packageBody =>
+  .ok { header := cfg.versionHeader, split := rsplitOnceDot cfg.package, packageObject, packageBody }
+
+/-- `Language::generate_types` for one output file -/
+def generate (cfg : Cfg) (d : ParsedData) : Outcome Str :=
+  (fileFacts cfg d).bind fun f => .ok (renderFile f)
+
+def generateFrom (cfg : Cfg) :
+    List (Str × ParsedData × Option Pipeline.ScopedCrateTypes) → Outcome (List (Str × Str))
+  | [] => .ok []
+  | (crate, d, _) :: rest =>
+    (generate cfg d).bind fun text =>
+    (generateFrom cfg rest).bind fun outs => .ok ((crate, text) :: outs)
+
 /-- all output files of one run: `jobs` are the crates in map order with their reconciled data and
-(in multi-file mode) the imports `used_imports` computed.  Returns (crate ↦ text) in the same order
-(plus, for Swift in multi-file mode, what `post_generation` writes, under the key
-`<post>/<file name>`). -/
-def generateAll (E : Ext) (cfg : Cfg) (multiFile : Bool)
+(in multi-file mode) the imports `used_imports` computed (Scala's `generate_types` never looks at
+them).  Returns (crate ↦ text) in the same order. -/
+def generateAll (_E : Ext) (cfg : Cfg) (_multiFile : Bool)
     (jobs : List (Str × ParsedData × Option Pipeline.ScopedCrateTypes)) : Outcome (List (Str × Str)) :=
-  .err (.formatError s%"unmodelled-language")
+  generateFrom cfg jobs
 
 end TsV.Lang.Scala
